@@ -354,7 +354,7 @@ theorem Frame_entriesLoop (cfg : StructCfg) (pathOpen : Bytes) (es : Entries) : 
   | nil => intro st; rw [entriesLoop, entriesLoop]; exact Frame_mark 2 st
   | cons k v rest =>
     intro st; rw [entriesLoop, entriesLoop]
-    exact Frame_bind_const (keyStr k)
+    exact Frame_bind_const (keyStr cfg.ext k)
       (fun ks st => validate cfg (pathOpen ++ ks ++ [93]) v true (st.mark 1) >>= fun st1 => entriesLoop cfg pathOpen rest st1)
       (fun ks => Frame_bind _ _ (Frame_comp_pure (fun st => st.mark 1) _ (Frame_mark 1) (Frame_validate cfg _ v true))
         (Frame_entriesLoop cfg pathOpen rest)) st
